@@ -206,7 +206,15 @@ class Linearizer:
                 return self.atom(e, (0, (1 << 64) - 1))
             if op == 'Rem' and e[3][0] == 'const' and e[3][1] > 0:
                 return self.atom(e, (0, e[3][1] - 1))
-            if op in ('BitXor', 'BitOr', 'Shl', 'Div', 'Rem'):
+            if op in ('BitXor', 'BitOr'):
+                # no bit above the highest bit either operand can have
+                a, b = self.lin(e[2]), self.lin(e[3])
+                if a is not None and b is not None:
+                    (_, ha), (_, hb) = self.bounds(a), self.bounds(b)
+                    if ha is not None and hb is not None and ha >= 0 and hb >= 0:
+                        return self.atom(e, (0, (1 << int(max(ha, hb)).bit_length()) - 1))
+                return self.atom(e)
+            if op in ('Shl', 'Div', 'Rem'):
                 return self.atom(e)
             return None
         if h == 'cast':
